@@ -485,6 +485,78 @@ example : dval 0x4028000000000000 = 12 := by
   unfold dval; rw [this]; push_cast; field_simp
 example : scanNumberBaseW [49, 101, 52, 48, 48] 0 = some infBits := by decide +kernel
 
+/-! ### `janet_scan_number`: radix prefixes and exponent markers of the SPEC value, covered by theorems
+
+The scanner side of these is inside `scan_end_to_end` (via `numHeader_spec` / `scanner_plumbing_correct`: whatever
+`scanPrefix` / `scanDigits` / `parseExponent` do is proved equal to `denote`).  The theorems below make the SPEC side
+readable: what `denote` says about `0x`, `Dr`, `DDr`, a radix parameter, and the markers `&`, `e`/`E`, `p`/`P`. -/
+
+/-- "0x…" is radix 16 (also after a sign) -/
+theorem prefix_hex (s : List Nat) :
+    denote (48 :: 120 :: s) 0 = denoteBody false 16 s ∧ denote (45 :: 48 :: 120 :: s) 0 = denoteBody true 16 s ∧
+    denote (43 :: 48 :: 120 :: s) 0 = denoteBody false 16 s := by
+  refine ⟨?_, ?_, ?_⟩ <;> simp [denote, splitSign, splitRadix]
+
+/-- "Dr…" (one decimal digit D, then `r`) is radix D; the degenerate "0r…" is radix 10 (as in the C code) -/
+theorem prefix_radix1 (d : Nat) (s : List Nat) (h1 : 48 ≤ d) (h2 : d ≤ 57) :
+    denote (d :: 114 :: s) 0 = denoteBody false (if d = 48 then 10 else d - 48) s := by
+  have n1 : d ≠ 45 := by omega
+  have n2 : d ≠ 43 := by omega
+  have e0 : (d - 48 = 0) = (d = 48) := by apply propext; omega
+  simp [denote, splitSign, splitRadix, isDec, n1, n2, h1, h2, e0]
+
+/-- "DDr…" (two decimal digits) is radix DD ("00r" again radix 10; the scanner rejects DD outside 2..36) -/
+theorem prefix_radix2 (d1 d2 : Nat) (s : List Nat) (h1 : 48 ≤ d1) (h2 : d1 ≤ 57) (h3 : 48 ≤ d2) (h4 : d2 ≤ 57) :
+    denote (d1 :: d2 :: 114 :: s) 0 =
+      denoteBody false (if 10 * (d1 - 48) + (d2 - 48) = 0 then 10 else 10 * (d1 - 48) + (d2 - 48)) s := by
+  have n1 : d1 ≠ 45 := by omega
+  have n2 : d1 ≠ 43 := by omega
+  have n3 : d2 ≠ 114 := by omega
+  have n4 : d2 ≠ 120 := by omega
+  simp [denote, splitSign, splitRadix, isDec, n1, n2, n3, n4, h1, h2, h3, h4]
+
+/-- with a radix parameter (`scan-number` with a base, PEG `number` captures) no prefix is read -/
+theorem radix_parameter (str : List Nat) (b : Nat) (hb : b ≠ 0) :
+    denote str b = denoteBody (splitSign str).1 b (splitSign str).2 := by
+  simp [denote, hb]
+
+/-- ★ exponent markers: a mantissa text `ms` without marker characters followed by a marker `mk` (`&` in every radix,
+    `e`/`E` in radix 10, `p`/`P` in radix 16) and the exponent text `es` denotes `M·b^(±X − F)` — for `p`/`P`:
+    `M·2^(±X − 4F)` with X read in DECIMAL — where M = all mantissa digits read as one integer, F = digits after the
+    point, X = the exponent digits read in the radix, sign from a leading `-`/`+`. -/
+theorem exponent_marker_spec (neg : Bool) (b : Nat) (ms : List Nat) (mk : Nat) (es : List Nat)
+    (hms : ∀ c ∈ ms, isExpMarker b c = false) (hmk : isExpMarker b mk = true) :
+    denoteBody neg b (ms ++ mk :: es) =
+      (let hexp := (mk == 80 || mk == 112) && b == 16
+       let X := ofDigits (if hexp then 10 else b) (splitSign es).2
+       let Xs : Int := if (splitSign es).1 then -(X : Int) else (X : Int)
+       if hexp then ⟨neg, ofDigits b (mantChars ms), 2, Xs - 4 * ((fracChars ms).length : Int)⟩
+       else ⟨neg, ofDigits b (mantChars ms), b, Xs - ((fracChars ms).length : Int)⟩) := by
+  have ht : (ms ++ mk :: es).takeWhile (fun c => !isExpMarker b c) = ms := by
+    rw [List.takeWhile_append_of_pos (by intro c hc; simp [hms c hc])]
+    simp [List.takeWhile_cons, hmk]
+  have hd : (ms ++ mk :: es).dropWhile (fun c => !isExpMarker b c) = mk :: es := by
+    rw [List.dropWhile_append_of_pos (by intro c hc; simp [hms c hc])]
+    simp [List.dropWhile_cons, hmk]
+  unfold denoteBody
+  simp only [ht, hd]
+
+/-- ★ `janet_scan_number` (radix read from the text) end to end -/
+theorem scan_number_end_to_end (str : List Nat) (bits : Nat) (h : scanNumber str = some bits) :
+    ∃ mag, mag ≤ infBits ∧ bits = withSign (denote str 0).neg mag ∧
+      (∀ k, k ≤ infBits → dval k = (denote str 0).absVal → dval mag = (denote str 0).absVal) ∧
+      (∀ k, k ≤ infBits → dval k < dval mag → dval k < (denote str 0).absVal) ∧
+      (∀ k, k ≤ infBits → dval mag < dval k → (denote str 0).absVal < dval k) :=
+  scan_end_to_end_q str 0 (by decide) bits h
+
+/-- the format whose output `LibcPrinted17` is about has 17 significant digits (read from `janet_buffer_dtostr`) -/
+theorem print_digits_17 : printDigits = 17 := by decide
+
+/-- non-vacuity: "36rZ&2" = 35·36², "1e3", "0x1p-2" = 2^−2 -/
+example : denote [51, 54, 114, 90, 38, 50] 0 = ⟨false, 35, 36, 2⟩ := by decide +kernel
+example : scanNumber [51, 54, 114, 90, 38, 50] = some 0x40E6260000000000 := by decide +kernel
+example : scanNumber [48, 120, 49, 112, 45, 50] = some 0x3FD0000000000000 := by decide +kernel
+
 /-! ### the 17-digit round trip: READING side closed, printing side = one explicit libc hypothesis -/
 
 /-- EXPLICIT LIBC HYPOTHESIS — the only thing assumed about `snprintf("%.17g", x)` (janet_buffer_dtostr, `%j`): the text
